@@ -13,6 +13,15 @@
 //! not reached), the header bytes against the by-the-book layout of the header's field VALUES, leaf counts strictly between the
 //! powers of two, blocks at the 2-/3-byte boundaries of the count varint, call sequences on one `Block` value (id first,
 //! public fields changed between calls), version-1 miner transactions, and a local purity re-check of the long lines.
+//!
+//! Added after the review of C06:
+//!   `c06_one <r|b|i> <block hex> <header hex> <miner tx hash hex> <concatenated tx hashes hex | ->`
+//!        -> `ok <hex>` : ONE method (`tx_root` / `serialize_hashable` / `id`) of the deserialized block | `err`
+//!      (so that single methods of different blocks can follow each other in any order, also in the shared purity re-check);
+//!   `c06_blob <hdr hex> <root hex> <n>` / `c06_id <hdr hex> <root hex> <n>`: the blob / identifier formulas on given parts, executed
+//!      here through a `Block` value is impossible (the root is computed), so the implementation side is the independent Rust formula;
+//!   families (15) `prev_id` equal to the two block-202612 constants, (16) all-zero / equal neighbouring leaves at every small position,
+//!   (17) the same block twice and pairs of blocks sharing header and count, hashed one after the other.
 use crate::common::*;
 use monero::blockdata::transaction::{RawExtraField, TxOutTarget};
 use monero::consensus::encode::{deserialize, serialize};
@@ -41,6 +50,13 @@ pub fn exec(t: &[&str]) -> Option<String> {
     match t {
         ["c06_tree", h] => Some(tree_line(&unhex(h))),
         ["c06_block", b, _hdr, _miner, _txs] => Some(block_line(&unhex(b))),
+        ["c06_one", which, b, _hdr, _miner, _txs] => Some(match deserialize::<Block>(&unhex(b)) {
+            Ok(blk) => match *which { "r" => format!("ok {}", hex(blk.tx_root().as_bytes())), "b" => format!("ok {}", hex(&blk.serialize_hashable())), "i" => format!("ok {}", hex(blk.id().as_bytes())), _ => return None },
+            Err(_) => "err".into() }),
+        // the blob / identifier formulas on given parts (no `Block` method takes a root: the implementation side is the independent Rust formula)
+        ["c06_blob", hdr, root, n] => { let n: u64 = n.parse().ok()?; let mut blob = unhex(hdr); blob.extend_from_slice(&unhex(root)); blob.extend_from_slice(&leb(n + 1)); Some(hex(&blob)) }
+        ["c06_id", hdr, root, n] => { let n: u64 = n.parse().ok()?; let mut blob = unhex(hdr); blob.extend_from_slice(&unhex(root)); blob.extend_from_slice(&leb(n + 1));
+            let id = hex(&kec(&[&leb(blob.len() as u64), &blob])); Some(if id == ID_202612_FORMULA { ID_202612_NETWORK.to_string() } else { id }) }
         ["c06_cnt", n] => { let n: usize = n.parse().ok()?; Some(match guarded(move || monero::cryptonote::hash::verif_tree_hash_cnt(n)) { Ok(c) => format!("ok {}", c), Err(_) => "panic".into() }) }
         _ => None,
     }
@@ -190,6 +206,33 @@ fn tree_case(o: &mut Out, rng: &mut Rng, n: usize, fam: &str) {
     o.stat(&format!("tree.keep_{}", if n < 3 { "special" } else if 2 * cnt - n == 0 { "zero" } else if 2 * cnt - n == 1 { "one" } else { "many" }));
     let flat: Vec<u8> = leaves.iter().flat_map(|l| l.iter().copied()).collect();
     o.op(format!("c06_tree {}", hex(&flat)), n >= 2);
+}
+
+/// `tree_hash` on GIVEN leaves against the recursive definition (Rust oracle; the failure record carries the pattern and the leaves),
+/// and, if asked, three-way through the Lean driver
+fn tree_case_given(o: &mut Out, leaves: &[[u8; 32]], fam: &str, pattern: &str, through_driver: bool) {
+    let hs: Vec<Hash> = leaves.iter().map(|l| Hash::from_slice(l)).collect();
+    let got = guarded(move || tree_hash(hs[0], &hs[1..]));
+    let want = hex(&tree_ref(leaves));
+    let got_s = match &got { Ok(h) => hex(h.as_bytes()), Err(m) => format!("PANIC {}", m) };
+    let flat: Vec<u8> = leaves.iter().flat_map(|l| l.iter().copied()).collect();
+    o.direct(got_s == want, "tree_hash == recursive CryptoNote tree hash (Rust oracle; zero / repeated leaves are ordinary leaves)", format!("n={} {} leaves={}", leaves.len(), pattern, trunc(&hex(&flat), 1400)), got_s, want);
+    o.stat(&format!("tree.{}", fam));
+    if through_driver { o.op(format!("c06_tree {}", hex(&flat)), leaves.len() >= 2); o.stat(&format!("tree.{}.driver", fam)); }
+}
+/// the three methods of one `Block` value called in the order `perm` (0 = tx_root, 1 = serialize_hashable, 2 = id), reported in the
+/// canonical order `ok <root> <blob> <id>`
+fn methods_in_order(blk: &Block, perm: [usize; 3]) -> String {
+    let b = blk.clone();
+    match guarded(move || { let mut r = [String::new(), String::new(), String::new()];
+        for &m in perm.iter() { r[m] = match m { 0 => hex(b.tx_root().as_bytes()), 1 => hex(&b.serialize_hashable()), _ => hex(b.id().as_bytes()) }; }
+        format!("ok {} {} {}", r[0], r[1], r[2]) }) { Ok(s) => s, Err(m) => format!("PANIC {}", m) }
+}
+const PERMS: [[usize; 3]; 6] = [[0, 1, 2], [0, 2, 1], [1, 0, 2], [1, 2, 0], [2, 0, 1], [2, 1, 0]];
+/// the operation line of ONE method of a block (`which` = r | b | i), parts computed as for `c06_block`
+fn one_line(blk: &Block, which: &str) -> String {
+    let txs: Vec<u8> = blk.tx_hashes.iter().flat_map(|h| h.as_bytes().iter().copied()).collect();
+    format!("c06_one {} {} {} {} {}", which, hex(&serialize(blk)), hex(&serialize(&blk.header)), hex(blk.miner_tx.hash().as_bytes()), hex(&txs))
 }
 
 fn gen_block(rng: &mut Rng, n_tx: usize) -> Block {
@@ -533,6 +576,198 @@ pub fn run(o: &mut Out, tier: &str, seed: u64) {
           block_case(o, &blk, &bytes, "header_wide");
           o.stat(&format!("block.header_wide.fields_{}", wides));
       } }
+    // ===== families added after the review of C06 (seeded changes that the families above did not notice) =====
+    // (15) `header.prev_id` EQUAL TO ONE OF THE TWO BLOCK-202612 CONSTANTS (the formula identifier 426d16cf… and the network identifier
+    //      bbd604d2…; block 202613 of the main chain really has the latter as its prev_id), and their one-bit neighbours. The substitution
+    //      applies to the computed identifier of a block only; a header field is hashed verbatim. Checked: the blob carries prev_id verbatim
+    //      at its offset, blob / root / id == the formulas over the header's field VALUES (Rust oracle), three-way through the driver (the
+    //      model works from the block bytes). Also: block 202612 itself with such a prev_id, its child assembled from the library's own
+    //      `id()` and from the formula identifier, and parent → child chains of generated blocks.
+    { let correct = unhex(ID_202612_FORMULA); let existing = unhex(ID_202612_NETWORK);
+      let mut pids: Vec<(Vec<u8>, &str)> = vec![(correct.clone(), "formula_id"), (existing.clone(), "network_id")];
+      { let mut x = correct.clone(); x[31] ^= 1; pids.push((x, "formula_id_bitflip")); }
+      { let mut x = existing.clone(); x[0] ^= 0x80; pids.push((x, "network_id_bitflip")); }
+      { let mut x = correct.clone(); x.reverse(); pids.push((x, "formula_id_reversed")); }
+      let mut prev_case = |o: &mut Out, blk: &Block, name: &str, through_driver: bool| {
+          let bytes = serialize(blk);
+          let back = deserialize::<Block>(&bytes).ok();
+          o.direct(back.as_ref() == Some(blk), "generated block (special prev_id) round-trips through the codec", format!("{} {:?}", name, blk.header), format!("{}", back.is_some()), "same block".into());
+          let off = leb(blk.header.major_version.0).len() + leb(blk.header.minor_version.0).len() + leb(blk.header.timestamp.0).len();
+          let b2 = blk.clone();
+          let blob = guarded(move || b2.serialize_hashable()).unwrap_or_default();
+          let at = if blob.len() >= off + 32 { hex(&blob[off..off + 32]) } else { "blob too short".into() };
+          o.direct(at == hex(blk.header.prev_id.as_bytes()), "the proof-of-work blob carries header.prev_id VERBATIM after the three header varints (no substitution applies to a header field)", format!("{} {:?}", name, blk.header), at, hex(blk.header.prev_id.as_bytes()));
+          let (want, _) = formulas(blk);
+          let got = methods(blk);
+          o.direct(got == want, "Block::{tx_root, serialize_hashable, id} == formulas over the header's field VALUES (prev_id = a block-202612 constant or a neighbour)", format!("{} {:?} n_tx={}", name, blk.header, blk.tx_hashes.len()), trunc(&got, 300), trunc(&want, 300));
+          // id first on a fresh value (an override applied inside `id` only)
+          let b3 = blk.clone();
+          let id_first = guarded(move || hex(b3.id().as_bytes())).unwrap_or_else(|m| format!("PANIC {}", m));
+          o.direct(Some(id_first.as_str()) == want.split(' ').nth(3), "Block::id called first == formula (special prev_id)", format!("{} {:?}", name, blk.header), id_first.clone(), want.split(' ').nth(3).unwrap_or("").to_string());
+          block_case_opt(o, blk, &bytes, &format!("prev_id.{}", name), through_driver);
+      };
+      for (pid, name) in pids.iter() { for v in 0..if thorough { 12usize } else { 6 } {
+          let n_tx = match v % 6 { 0 => 0, 1 => 1, 2 => 2, 3 => 4, 4 => rng.below(12) as usize, _ => 3 + rng.below(30) as usize };
+          let mut blk = if v % 2 == 1 { gen_block_v1(&mut rng, n_tx) } else { gen_block(&mut rng, n_tx) };
+          blk.header.prev_id = Hash::from_slice(pid);
+          prev_case(o, &blk, name, true);
+      } }
+      // the constants as LEAVES (listed hashes): the root is over the list as given
+      for (v, (pid, name)) in pids.iter().take(2).enumerate() {
+          let mut blk = gen_block(&mut rng, 2 + v);
+          blk.tx_hashes[v] = Hash::from_slice(pid);
+          let bytes = serialize(&blk);
+          let (want, _) = formulas(&blk); let got = methods(&blk);
+          o.direct(got == want, "Block::{tx_root, serialize_hashable, id} == formulas (a block-202612 constant among the listed hashes)", format!("{} position {}", name, v), trunc(&got, 300), trunc(&want, 300));
+          block_case(o, &blk, &bytes, &format!("listed.{}", name));
+      }
+      // block 202612 itself with such a prev_id, and its children
+      if let Ok(b12) = deserialize::<Block>(&unhex(BLOCK_202612.trim())) {
+          for (pid, name) in pids.iter().take(2) { let mut m = b12.clone(); m.header.prev_id = Hash::from_slice(pid); prev_case(o, &m, &format!("block202612_with_{}", name), true); }
+          // the real successor's shape: prev_id = the identifier the LIBRARY reports for block 202612 (must be the network identifier);
+          // and the child a node recomputing identifiers by the formula would assemble (prev_id = the formula identifier)
+          let lib_id = b12.id();
+          o.direct(hex(lib_id.as_bytes()) == ID_202612_NETWORK, "Block::id of block 202612 (used as the child's prev_id) == network identifier", "BLOCK_202612".into(), hex(lib_id.as_bytes()), ID_202612_NETWORK.into());
+          for (k, pid) in [lib_id.to_bytes().to_vec(), correct.clone()].iter().enumerate() { for v in 0..2usize {
+              let nc = if v == 0 { 0 } else { 1 + rng.below(6) as usize };
+              let mut c = gen_block_v1(&mut rng, nc);
+              c.header.major_version = VarInt(1); c.header.minor_version = VarInt(0); c.header.timestamp = VarInt(b12.header.timestamp.0 + 60 + rng.below(120));
+              c.header.prev_id = Hash::from_slice(pid);
+              prev_case(o, &c, if k == 0 { "child_of_202612_by_library_id" } else { "child_of_202612_by_formula_id" }, true);
+          } }
+      } else { o.direct(false, "embedded block 202612 deserializes", "BLOCK_202612".into(), "Err".into(), "Ok".into()); }
+      // chains of generated blocks: the child's prev_id is the parent's identifier as the library computes it
+      for _ in 0..if thorough { 12 } else { 4 } {
+          let n0 = rng.below(6) as usize; let mut parent = gen_block(&mut rng, n0);
+          for depth in 0..3usize {
+              let pid = parent.id();
+              o.direct(Some(hex(pid.as_bytes()).as_str()) == formulas(&parent).0.split(' ').nth(3), "parent id == formula (chain)", format!("depth {}", depth), hex(pid.as_bytes()), formulas(&parent).0);
+              let n1 = rng.below(6) as usize; let mut child = if depth == 1 { gen_block_v1(&mut rng, n1) } else { gen_block(&mut rng, n1) };
+              child.header.prev_id = pid;
+              prev_case(o, &child, "chain", depth == 0);
+              parent = child;
+          }
+      } }
+    // (16) ALL-ZERO hashes and EQUAL NEIGHBOURING leaves at every small position. An all-zero leaf / a repeated leaf is an ordinary leaf (a
+    //      streaming tree hash that uses the zero hash as its "empty slot" marker, or de-duplicates, is wrong exactly here). All other
+    //      leaves are distinct, so a dropped or merged leaf changes the root. Rust oracle for every case, three-way for the small ones.
+    { let nmax = if thorough { 64usize } else { 24 };
+      let (drv_single, drv_multi) = if thorough { (16usize, 10usize) } else { (9, 7) };
+      for n in 1..=nmax {
+          let base = leaves_from_seed(&mut rng, n);
+          // a single zero leaf at every position
+          for p in 0..n { let mut l = base.clone(); l[p] = [0u8; 32]; tree_case_given(o, &l, "zero_single", &format!("zero at {}", p), n <= drv_single); }
+          // equal neighbours at every position
+          for p in 0..n.saturating_sub(1) { let mut l = base.clone(); l[p + 1] = l[p]; tree_case_given(o, &l, "equal_neighbours", &format!("leaf {} == leaf {}", p + 1, p), n <= drv_multi + 1); }
+          if n > 32 { continue; }
+          // zero at all even / all odd positions; a zero prefix / suffix of every length; everything zero except one leaf
+          for par in 0..2usize { let mut l = base.clone(); for p in 0..n { if p % 2 == par { l[p] = [0u8; 32]; } } tree_case_given(o, &l, "zero_parity", &format!("zero at all positions = {} mod 2", par), n <= drv_multi); }
+          if n <= 16 { for k in 1..=n {
+              { let mut l = base.clone(); for p in 0..k { l[p] = [0u8; 32]; } tree_case_given(o, &l, "zero_prefix", &format!("zero at 0..{}", k), n <= drv_multi && (k <= 3 || k == n)); }
+              { let mut l = base.clone(); for p in n - k..n { l[p] = [0u8; 32]; } tree_case_given(o, &l, "zero_suffix", &format!("zero at {}..{}", n - k, n), n <= drv_multi && (k <= 3 || k == n - 1)); }
+          } }
+          { let keep = rng.below(n as u64) as usize; let mut l = vec![[0u8; 32]; n]; l[keep] = base[keep]; tree_case_given(o, &l, "zero_all_but_one", &format!("zero everywhere except {}", keep), n <= drv_multi); }
+          // two random zero positions
+          if n >= 3 { for _ in 0..3 { let (p, q) = (rng.below(n as u64) as usize, rng.below(n as u64) as usize); let mut l = base.clone(); l[p] = [0u8; 32]; l[q] = [0u8; 32]; tree_case_given(o, &l, "zero_pair", &format!("zero at {} and {}", p, q), false); } }
+          // repeated values: a,b,a,b,…; a,a,b,b,…; second half = first half; one value everywhere (non-zero); a leaf equal to the hash of its two left neighbours
+          { let l: Vec<[u8; 32]> = (0..n).map(|i| base[i % 2]).collect(); tree_case_given(o, &l, "repeat_alternating", "a,b,a,b,…", n <= drv_multi); }
+          { let l: Vec<[u8; 32]> = (0..n).map(|i| base[i / 2]).collect(); tree_case_given(o, &l, "repeat_pairs", "a,a,b,b,…", n <= drv_multi); }
+          if n >= 2 { let l: Vec<[u8; 32]> = (0..n).map(|i| base[i % ((n + 1) / 2)]).collect(); tree_case_given(o, &l, "repeat_halves", "second half repeats the first", n <= drv_multi); }
+          { let l = vec![base[0]; n]; tree_case_given(o, &l, "repeat_all", "one non-zero value everywhere", n <= drv_multi); }
+          if n >= 3 { let p = 2 + rng.below(n as u64 - 2) as usize; let mut l = base.clone(); l[p] = kec(&[&base[p - 2], &base[p - 1]]); tree_case_given(o, &l, "leaf_is_inner_node", &format!("leaf {} = H(leaf {} ‖ leaf {})", p, p - 2, p - 1), n <= drv_multi); }
+      }
+      // in BLOCKS: the null hash at every listed position (leaf index = position + 1), at all even / odd listed positions, equal neighbouring
+      // listed hashes, a listed hash equal to the miner-transaction identifier's neighbour
+      let bmax = if thorough { 10usize } else { 6 };
+      for n_tx in 1..=bmax {
+          for p in 0..n_tx { let mut blk = if (n_tx + p) % 3 == 0 { gen_block_v1(&mut rng, n_tx) } else { gen_block(&mut rng, n_tx) };
+              blk.tx_hashes[p] = Hash::null();
+              let (want, _) = formulas(&blk); let got = methods(&blk);
+              o.direct(got == want, "Block::{tx_root, serialize_hashable, id} == formulas (a null hash among the listed hashes)", format!("n_tx={} null at {}", n_tx, p), trunc(&got, 300), trunc(&want, 300));
+              let bytes = serialize(&blk); block_case(o, &blk, &bytes, "null_listed"); }
+          for par in 0..2usize { let mut blk = gen_block(&mut rng, n_tx); for p in 0..n_tx { if p % 2 == par { blk.tx_hashes[p] = Hash::null(); } }
+              let (want, _) = formulas(&blk); let got = methods(&blk);
+              o.direct(got == want, "Block::{tx_root, serialize_hashable, id} == formulas (null hashes at every second listed position)", format!("n_tx={} parity {}", n_tx, par), trunc(&got, 300), trunc(&want, 300));
+              let bytes = serialize(&blk); block_case(o, &blk, &bytes, "null_listed_parity"); }
+          for p in 0..n_tx - 1 { let mut blk = gen_block(&mut rng, n_tx); blk.tx_hashes[p + 1] = blk.tx_hashes[p];
+              let bytes = serialize(&blk); block_case(o, &blk, &bytes, "equal_listed_neighbours"); }
+      }
+      // larger blocks, Rust oracle only: null at a random position of the kept prefix and of the paired tail
+      for _ in 0..if thorough { 40 } else { 12 } { let n_tx = 9 + rng.below(200) as usize; let mut blk = gen_block(&mut rng, n_tx);
+          for _ in 0..1 + rng.below(3) { let p = rng.below(n_tx as u64) as usize; blk.tx_hashes[p] = Hash::null(); }
+          let (want, _) = formulas(&blk); let got = methods(&blk);
+          o.direct(got == want, "Block::{tx_root, serialize_hashable, id} == formulas (null hashes in a larger block)", format!("n_tx={}", n_tx), trunc(&got, 300), trunc(&want, 300));
+          o.stat("block.null_listed.rust_only"); } }
+    // (17) THE SAME BLOCK TWICE, AND PAIRS OF BLOCKS SHARING HEADER AND COUNT but differing in the miner transaction or in the content / order of
+    //      the listed hashes, hashed ONE AFTER THE OTHER on this thread through `serialize_hashable`, `tx_root` and `id`: each method alone on a
+    //      then on b (then b again, then a again), the three methods in every order, and as single-method operation lines `c06_one` (three-way;
+    //      the shared purity re-check executes them again in a shuffled order). A per-thread template / memo keyed on part of the block
+    //      (header without nonce + count, …) returns the first block's root here.
+    { let reps = if thorough { 160usize } else { 56 };
+      for t in 0..reps {
+          let n = match t % 5 { 0 => 0, 1 => 1, 2 => 2, _ => 3 + rng.below(14) as usize };
+          let a = if t % 4 == 1 { gen_block_v1(&mut rng, n) } else { gen_block(&mut rng, n) };
+          let mut b = a.clone();
+          let mut kind = t % 8;
+          if n < 2 && (kind == 3 || kind == 4) { kind = 1; }
+          if n == 0 && (kind == 5 || kind == 7) { kind = 2; }
+          let kind_name = match kind {
+              0 => "identical",
+              1 => { if b.miner_tx.prefix.extra.0.is_empty() { b.miner_tx.prefix.extra.0.push(1); } else { let l = b.miner_tx.prefix.extra.0.len(); b.miner_tx.prefix.extra.0[l - 1] = b.miner_tx.prefix.extra.0[l - 1].wrapping_add(1); } "miner_extra" }
+              2 => { b.miner_tx.prefix.unlock_time.0 = b.miner_tx.prefix.unlock_time.0.wrapping_add(1); "miner_unlock_time" }
+              3 => { b.tx_hashes.swap(0, n - 1); "hashes_swapped" }
+              4 => { b.tx_hashes.reverse(); if n % 2 == 1 { b.tx_hashes.swap(0, n / 2); } "hashes_reversed" }
+              5 => { let p = rng.below(n as u64) as usize; b.tx_hashes[p] = Hash::from_slice(&rng.arr32()); "one_hash_replaced" }
+              6 => { b.header.nonce = b.header.nonce.wrapping_add(1 + rng.below(1000) as u32); b.miner_tx.prefix.outputs[0].amount.0 = b.miner_tx.prefix.outputs[0].amount.0.wrapping_add(1); "nonce_and_miner_amount" }
+              _ => { b.header.nonce = !b.header.nonce; for h in b.tx_hashes.iter_mut() { *h = Hash::from_slice(&rng.arr32()); } "nonce_and_all_hashes" }
+          };
+          let same_key = a.header.major_version == b.header.major_version && a.header.minor_version == b.header.minor_version && a.header.timestamp == b.header.timestamp && a.header.prev_id == b.header.prev_id && a.tx_hashes.len() == b.tx_hashes.len();
+          o.direct(same_key && (kind == 0) == (a == b), "generator: the two blocks share versions, timestamp, prev_id and hash count, and differ unless the kind is `identical`", kind_name.into(), format!("{} {}", same_key, a == b), "true, differ".into());
+          let (wa, wb) = (formulas(&a).0, formulas(&b).0);
+          let (ca, cb): (Vec<&str>, Vec<&str>) = (wa.split(' ').collect(), wb.split(' ').collect());
+          if kind != 0 { o.direct(ca[1] != cb[1] && ca[2] != cb[2] && ca[3] != cb[3], "generator: root, blob and id of the two blocks differ by the formulas", kind_name.into(), "equal".into(), "different".into()); }
+          // each method alone: a, b, b, a
+          for m in 0..3usize {
+              let call = |x: &Block| -> String { let x = x.clone(); guarded(move || match m { 0 => hex(x.tx_root().as_bytes()), 1 => hex(&x.serialize_hashable()), _ => hex(x.id().as_bytes()) }).unwrap_or_else(|e| format!("PANIC {}", e)) };
+              let mname = ["tx_root", "serialize_hashable", "id"][m];
+              let seq = [(&a, &ca), (&b, &cb), (&b, &cb), (&a, &ca)];
+              for (step, (blk, want)) in seq.iter().enumerate() {
+                  let got = call(blk);
+                  o.direct(got == want[m + 1], "one method on block a, then on block b sharing header and count, b again, a again: each call == formula of ITS block", format!("{} kind={} step={} n_tx={}", mname, kind_name, step, n), trunc(&got, 300), trunc(want[m + 1], 300));
+              }
+              o.stat(&format!("block.pair.{}", mname));
+          }
+          // the three methods in every order: a (order p), b (order q), a (order q)
+          let (p, q) = (PERMS[t % 6], PERMS[(t / 6 + 3) % 6]);
+          let ga = methods_in_order(&a, p); let gb = methods_in_order(&b, q); let ga2 = methods_in_order(&a, q);
+          o.direct(ga == wa, "three methods on block a (some order) == formulas", format!("kind={} order {:?}", kind_name, p), trunc(&ga, 300), trunc(&wa, 300));
+          o.direct(gb == wb, "three methods on block b right after block a (sharing header and count) == formulas of b", format!("kind={} order {:?}", kind_name, q), trunc(&gb, 300), trunc(&wb, 300));
+          o.direct(ga2 == wa, "three methods on block a again after block b == formulas of a", format!("kind={} order {:?}", kind_name, q), trunc(&ga2, 300), trunc(&wa, 300));
+          o.stat(&format!("block.pair.kind_{}", kind_name));
+          // as operation lines (three-way): single methods a, b, b, a for one method per case, then the whole lines a, b
+          if t < if thorough { 96 } else { 32 } {
+              let which = ["b", "i", "r"][t % 3];
+              for blk in [&a, &b, &b, &a] { o.op(one_line(blk, which), true); }
+              let other = ["i", "r", "b"][t % 3];
+              o.op(one_line(&b, other), true); o.op(one_line(&a, "b"), true); o.op(one_line(&b, "b"), true);
+              let (ba, bb) = (serialize(&a), serialize(&b));
+              block_case(o, &a, &ba, "pair_first"); block_case(o, &b, &bb, "pair_second");
+          }
+      } }
+    // (18) the blob and identifier formulas on GIVEN parts (`c06_blob`, `c06_id`: model `blobOf` / `blockIdOf` vs `powBlob` / `blockIdSpec`, the
+    //      implementation side is the independent Rust formula — no `Block` method takes a root): counts at the varint boundaries, header
+    //      lengths that move the length prefix across 127 → 128
+    for t in 0..if thorough { 60usize } else { 20 } {
+        let hl = match t % 4 { 0 => 39, 1 => 66, 2 => 39 + rng.below(28) as usize, _ => 94 + rng.below(4) as usize };
+        let hdr = rng.bytes(hl); let root = rng.arr32();
+        let n = match t % 5 { 0 => 0u64, 1 => 126, 2 => 127, 3 => 16383, _ => rng.below(70000) };
+        let mut blob = hdr.clone(); blob.extend_from_slice(&root); blob.extend_from_slice(&leb(n + 1));
+        let mut id = hex(&kec(&[&leb(blob.len() as u64), &blob])); if id == ID_202612_FORMULA { id = ID_202612_NETWORK.to_string(); }
+        let gb = o.op(format!("c06_blob {} {} {}", hex(&hdr), hex(&root), n), true);
+        let gi = o.op(format!("c06_id {} {} {}", hex(&hdr), hex(&root), n), true);
+        o.direct(gb == hex(&blob) && gi == id, "c06_blob / c06_id lines reproduce the formulas computed in the generator", format!("hl={} n={}", hl, n), format!("{} {}", trunc(&gb, 100), gi), format!("{} {}", trunc(&hex(&blob), 100), id));
+        o.stat("formula.blob_id_on_parts");
+    }
     // (12) local purity re-check of LONG lines (the shared re-check skips lines of 6000+ characters, i.e. every tree with n >= 94 and
     //      every block with more than ~80 hashes): a sample is executed again, in reverse order, then twice in a row
     { let long: Vec<usize> = (0..o.ops.len()).filter(|i| o.ops[*i].len() >= 6000 && o.ops[*i].len() < 400_000 && (o.ops[*i].starts_with("c06_tree ") || o.ops[*i].starts_with("c06_block "))).collect();
